@@ -854,8 +854,15 @@ func planC06(prop string, seed uint64, tier string, idx int) *Plan {
 		g.add(Op{K: "tags", Repo: r})
 	}
 	n := g.scale(g.r.between(8, 22))
+	overDir := idx%9 == 0 && k.Store == "dir" && k.Preseed == ""
+	if overDir {
+		g.p.Profile = "gc exactness: a directory store fills the directory, a memory store over it goes on"
+	}
 	for i := 0; i < n; i++ {
 		repo := g.r.intn(g.nrepos())
+		if overDir && i == n/3 {
+			g.add(Op{K: "restart", S: "memdir"})
+		}
 		switch g.r.intn(12) {
 		case 11:
 			if natural {
